@@ -8,7 +8,7 @@ VERIF = os.path.dirname(os.path.dirname(os.path.abspath(__file__)))
 # id -> (design section, level text, level note, technique)
 CLAIMED = {
     "C01": (
-        "Generated-input search: decimal strings built from exact expansions of float midpoints (truncated / perturbed / re-laid-out), grammar-random strings with thousands of digits and >i64 exponents, fast-path and range edges and a per-decimal-exponent sweep are parsed through parse, parse_partial(+junk) and the STANDARD options API in 4 (quick) / 9 (thorough) feature configurations and compared bit-exactly with an exact big-rational rounding oracle. Held on everything explored; not a proof.",
+        "Generated-input search: decimal strings built from exact expansions of float midpoints (truncated / perturbed / re-laid-out), grammar-random strings with thousands of digits and >i64 exponents, fast-path and range edges and a per-decimal-exponent sweep are parsed through parse, parse_partial(+junk) and the STANDARD options API in 6 (quick) / 11 (thorough) feature configurations (incl. power-of-two and no-std compact builds) and compared bit-exactly with an exact big-rational rounding oracle. Held on everything explored; not a proof.",
         "Trusted: the harness's big-integer rounding oracle (self-tested against std and Python fractions at setup), rustc, proptest.",
         "property-based testing (proptest) against an exact-arithmetic reference oracle; stratified enumeration over decimal exponents",
     ),
@@ -83,7 +83,7 @@ CLAIMED = {
         "property-based testing against a reference matcher + round-trip relations",
     ),
     "C16": (
-        "One seeded stream of default-API cases (decimal float strings incl. midpoint-derived and special-string variants, integer strings near the limits, integer values, float bit patterns) is evaluated in 8 (quick) / 12 (thorough) builds over {std, compact, power-of-two, radix, format}; per chunk of 1024 cases a 128-bit hash per result class (parse value bits/count/error kind+index; integer bytes; float bytes) is compared across builds (float bytes across non-compact builds); a differing chunk is dumped in both builds to name the first differing case. Compact float output must parse back to the same bits.",
+        "One seeded stream of default-API cases (decimal float strings incl. midpoint-derived and special-string variants, integer strings near the limits, integer values, float bit patterns) is evaluated in 9 (quick) / all 24 (thorough) builds over {std, compact, power-of-two, radix, format}; per chunk of 1024 cases a 128-bit hash per result class (parse value bits/count/error kind+index; integer bytes; float bytes) is compared across builds (float bytes across non-compact builds); a differing chunk is dumped in both builds to name the first differing case. Compact float output must parse back to the same bits.",
         "Trusted: the stream is a pure function of VERIF_SEED (proptest ChaCha RNG); hash collisions (128-bit) are ignored; this host's target only.",
         "differential testing across build configurations on a generated input stream",
     ),
